@@ -1,5 +1,5 @@
 """C08: tree comparison counts are exact set differences of splits."""
-import copy
+import copy, os
 from lib import *
 
 PROP = "C08"
@@ -23,7 +23,10 @@ RULE = ("pairs (reference, compared) of unrooted trees on the same 4..11 taxa (r
         "non-ASCII); streams of 120..400 trees with 1..3 rejected trees at random positions run with cpus in {2,8}, records matched "
         "by id; rejection cases rename one tip, "
         "drop a tip or add a tip in one of the trees; some rooted pairs (outside the quantifier) are run for the correspondence "
-        "only; all ordered pairs of the 7 unrooted shapes on 4 taxa and of the 66 on 5 taxa are enumerated in the thorough tier (trees up to 24 taxa there); non-trivial = the two trees differ in at "
+        "only; the COMMAND LINE `gotree compare trees -i ref -c trees -t k [--tips|--binary|--rf]` is run on generated Newick files under no CPU "
+        "restriction, pinned to 1 CPU and pinned to 2 CPUs (taskset), with -t in {1,2,NumCPU,NumCPU+5}: every printed row is compared with the "
+        "set algebra of the splits computed in Python (per tree id), a stream with a tree on other taxa must exit non-zero; "
+        "all ordered pairs of the 7 unrooted shapes on 4 taxa and of the 66 on 5 taxa are enumerated in the thorough tier (trees up to 24 taxa there); non-trivial = the two trees differ in at "
         "least one non-trivial split (or must be rejected); distinct = distinct case text")
 TRUSTED = ["trees built through NewNode/NewEdge + verif hooks (exact neighbour order); records read from the stats channel",
            "the compared tree is fed through a closed buffered channel of tree.Trees as utils.ReadMultiTrees does (no Newick parsing)",
@@ -244,6 +247,27 @@ def relabel(t, mp):
             nd["name"] = mp[nd["name"]]
     return t
 
+def taxa_variants(t, rng, g):
+    """all the ways the taxon multiset of a tree can differ from that of [t]: (kind, tree)"""
+    names = leaves(t)
+    a, b = rng.sample(names, 2)
+    def ren(src, dst):
+        u = clone(t)
+        for nd in preorder(u):
+            if not kids(nd) and nd["name"] == src:
+                nd["name"] = dst
+        return u
+    out = [("newname", ren(a, "zz")),
+           ("dup-same-count", ren(a, b)),                      # one taxon missing, another present twice
+           ("dup-bigger", add_tip(t, rng, g, b)),              # every taxon present, one twice
+           ("extra", add_tip(t, rng, g, "zz")),
+           ("emptyname", ren(a, "")),
+           ("casevariant", ren(a, a.swapcase() if a.swapcase() != a else a + "A"))]
+    d = drop_tip(t, rng)
+    if d is not None:
+        out.append(("missing", d))
+    return out
+
 NONE = [Sym("none")]
 
 def edit_for(t, rng, kind=None):
@@ -364,6 +388,14 @@ def gen(rng, tier):
         else:
             bad = add_tip(u, rng, g, "zz")
         emit(out, "difftaxa", t, bad, rng, flags=[(rng.random() < 0.5, rng.random() < 0.5)])
+        # every kind of taxon-multiset difference, as compared tree / as reference / inside a stream, rooted or not
+        tv = taxa_variants(u if rng.random() < 0.5 else t, rng, g)
+        kind_v, bad_v = rng.choice(tv)
+        if rng.random() < 0.4:
+            bad_v = root_on_branch(bad_v, rng, g)
+        emit(out, "difftaxa-" + kind_v, t, bad_v, rng, ops=("compare", "weighted", "common"), flags=[(rng.random() < 0.5, False)])
+        kind_w, bad_w = rng.choice(tv)
+        emit_stream(out, "stream-difftaxa-" + kind_w, t, [clone(t), bad_w, c1, bad_v, clone(t)], rng, flags=[(rng.random() < 0.5, False)])
         # outside the quantifier: rooted trees (correspondence only)
         if rng.random() < 0.5:
             rt = g.tree(ntips=n, rooted=True, maxdeg=4, lenmode="all", supmode="mixed", up_random=True)
@@ -393,3 +425,123 @@ def gen(rng, tier):
                     a = from_shape(g, s1, rng); b = from_shape(g, s2, rng)
                     emit(out, "enum", a, b, rng, ops=("compare",), both_orders=False, flags=[(False, False), (True, True)])
     return out
+
+
+# ---------------------------------------------------------------- the command line: gotree compare trees
+# Every command is run under no CPU restriction, pinned to ONE CPU and pinned to TWO CPUs (runtime.NumCPU() = 1 / 2),
+# with --threads in {1, 2, NumCPU, NumCPU+5}; every output row is judged against the set algebra of the splits computed
+# here in Python on the generated trees (exact counts per tree id); a stream containing a tree on other taxa must end
+# with a non-zero exit status.
+
+def _py_splits(t):
+    allv = sorted(leaves(t))
+    res = set()
+    def walk(n):
+        for sl in n["slots"]:
+            if sl is not None:
+                c = sl[1]
+                if kids(c):
+                    side = frozenset(leaves(c))
+                    if allv[0] in side:
+                        side = frozenset(allv) - side
+                    res.add(side)
+                walk(c)
+    walk(t)
+    return res
+
+def _expected_rows(ref, trees, flags):
+    s1 = _py_splits(ref)
+    n = len(leaves(ref))
+    rows = {}
+    for i, t in enumerate(trees):
+        s2 = _py_splits(t)
+        only1, both, only2 = len(s1 - s2), len(s1 & s2), len(s2 - s1)
+        if "--binary" in flags:
+            rows[i] = "true" if only1 == 0 and only2 == 0 else "false"
+        elif "--rf" in flags:
+            rows[i] = str(only1 + only2)
+        else:
+            rows[i] = "%d\t%d\t%d" % (only1, both + (n if "--tips" in flags else 0), only2)
+    return rows
+
+def extra(tier, seed, st):
+    import random, shutil, subprocess
+    import cli
+    info = {"cli_runs": 0, "cli_rows": 0, "evaluations": 0, "distinct_nontrivial": 0}
+    ok, err = cli.build_gotree()
+    if not ok:
+        return [("build", "gotree no longer builds: " + err[-400:], None)], info
+    rng = random.Random(seed + 8)
+    g = Gen(rng)
+    ncpu = os.cpu_count() or 1
+    taskset = shutil.which("taskset")
+    affinities = [None] + ([[0], [0, 1]] if taskset and ncpu >= 2 else ([[0]] if taskset else []))
+    fails = []
+    d = cli.scratch("c08-")
+    try:
+        datasets = []
+        for k in range({"quick": 3, "thorough": 12, "search": 3}.get(tier, 3)):
+            n = rng.randint(5, 9)
+            ref = unrooted(g, rng, n, maxdeg=4)
+            trees = [shuffle_children(reroot_at(ref, rng), rng), contraction(ref, rng), unrooted(g, rng, n, maxdeg=4),
+                     resolve_random(contraction(ref, rng), rng, g), clone(ref), contraction(ref, rng, k=1000)]
+            rng.shuffle(trees)
+            datasets.append(("same%d" % k, ref, trees, False))
+            bad = list(trees)
+            bad[rng.randrange(len(bad))] = rename_tip(rng.choice(trees), rng, "zz")
+            datasets.append(("diff%d" % k, ref, bad, True))
+        flagsets = [[], ["--tips"], ["--binary"], ["--rf"], ["--tips", "--binary"]]
+        for name, ref, trees, rejected in datasets:
+            rf = os.path.join(d, name + ".ref.nw")
+            cf = os.path.join(d, name + ".cmp.nw")
+            open(rf, "w").write(newick(ref) + "\n")
+            open(cf, "w").write("".join(newick(t) + "\n" for t in trees))
+            for aff in affinities:
+                nc = len(aff) if aff else ncpu
+                for thr in sorted(set([1, 2, nc, nc + 5])):
+                    flags = flagsets[(info["cli_runs"]) % len(flagsets)]
+                    argv = ["compare", "trees", "-i", rf, "-c", cf, "-t", str(thr)] + flags
+                    pre = ([taskset, "-c", ",".join(map(str, aff))] if aff else [])
+                    try:
+                        p = subprocess.run(pre + [cli.GOTREE] + argv, cwd=d, stdout=subprocess.PIPE, stderr=subprocess.PIPE, timeout=60)
+                        rc, out, errb = p.returncode, p.stdout.decode("utf-8", "replace"), p.stderr.decode("utf-8", "replace")
+                    except subprocess.TimeoutExpired:
+                        rc, out, errb = -9, "", "timeout"
+                    info["cli_runs"] += 1
+                    body = {"argv": argv, "affinity": aff, "ref": newick(ref), "trees": [newick(t) for t in trees], "rc": rc,
+                            "stdout": out[-2000:], "stderr": errb[-500:]}
+                    what = "gotree %s (cpus available: %s)" % (" ".join(argv[:2] + argv[6:]), len(aff) if aff else "all")
+                    if rc == -9:
+                        fails.append(("cli-compare", what + ": no answer within 60 s", body)); continue
+                    if rejected:
+                        if rc == 0:
+                            fails.append(("cli-compare", what + ": a stream with a tree on other taxa ends with exit status 0 (not rejected)", body))
+                        continue
+                    if rc != 0:
+                        fails.append(("cli-compare", what + ": exit status %d on trees on the same taxa: %s" % (rc, errb[-200:]), body)); continue
+                    lines = [l for l in out.split("\n") if l.strip() != ""]
+                    exp = _expected_rows(ref, trees, flags)
+                    if "--rf" in flags:
+                        got = sorted(lines)
+                        if got != sorted(exp.values()):
+                            fails.append(("cli-compare", what + ": RF distances %s, the split sets give %s" % (got, sorted(exp.values())), body))
+                        info["cli_rows"] += len(lines)
+                        continue
+                    rows = {}
+                    for l in lines[1:]:
+                        parts = l.split("\t", 1)
+                        if len(parts) == 2 and parts[0].isdigit():
+                            rows[int(parts[0])] = parts[1]
+                    info["cli_rows"] += len(rows)
+                    if len(lines) < 1 or not lines[0].startswith("tree"):
+                        fails.append(("cli-compare", what + ": no header line", body)); continue
+                    if sorted(rows) != list(range(len(trees))):
+                        fails.append(("cli-compare", what + ": %d rows for %d compared trees (ids %s)" % (len(rows), len(trees), sorted(rows)), body)); continue
+                    bad_rows = [(i, rows[i], exp[i]) for i in range(len(trees)) if rows[i] != exp[i]]
+                    if bad_rows:
+                        i, gotr, e = bad_rows[0]
+                        fails.append(("cli-compare", what + ": tree %d: printed %r, the split sets give %r" % (i, gotr, e), body))
+        info["evaluations"] = info["cli_rows"]
+    finally:
+        shutil.rmtree(d, ignore_errors=True)
+    return fails[:5], info
